@@ -15,10 +15,10 @@ for pid in ids:
     c = claims[pid]
     checks.append({
         "property_id": pid,
-        "quick_cmd": f"bin/zv check {pid} --tier quick",
-        "thorough_cmd": f"bin/zv check {pid} --tier thorough",
+        "quick_cmd": f"/verif/bin/zv check {pid} --tier quick",
+        "thorough_cmd": f"/verif/bin/zv check {pid} --tier thorough",
         "evidence_file": f"/verif/evidence/{pid}.json",
-        "replay_cmd_template": f"bin/zv check {pid} --tier thorough # violated obligations are listed in {{path}}; add --only <obligation-key> to re-run one",
+        "replay_cmd_template": f"/verif/bin/zv check {pid} --tier thorough # violated obligations are listed in {{path}}; add --only <obligation-key> to re-run one",
         "engine": "zv",
         "level_claimed": {"category": c.get("level", "other"), "text": c["text"], "design_ref": c.get("design_ref", f"DESIGN.md §5 {pid}")},
         "level_note": c["note"],
